@@ -1133,3 +1133,552 @@ theorem populate_ownCore (s : St) (h : OwnCore s.cur s.owner) :
     · cases hp
 
 end AkVerif.StickyAlg
+
+namespace AkVerif.StickyAlg
+open AkVerif.Assign
+
+/-- what must hold of the state handed to `balance` -/
+structure PreBalance (s : St) : Prop where
+  core : OwnCore s.cur s.owner
+  un_nodup : s.unassigned.Nodup
+  un_free : ∀ p ∈ s.unassigned, alGet s.owner p = none
+  c2p_nodup : (keysOf s.c2p).Nodup
+  c2p_cur : ∀ c ∈ keysOf s.c2p, c ∈ keysOf s.cur
+  pot : Pot s
+
+theorem own_of_core (s : St) (h : OwnCore s.cur s.owner) : Own { s with subs := s.cur.map (·.1) } [] := by
+  refine ⟨by simpa using h.K, by simpa using h.N, by simpa using h.HO, ?_, ?_, ?_⟩
+  · intro p c hp; obtain ⟨ps, h1, h2⟩ := h.OH p c hp; exact ⟨ps, by simpa using h1, h2⟩
+  · intro c hc; exact hc
+  · exact h.K
+
+theorem assignUnassigned_own (s : St) (h : Own s []) (hnd : s.unassigned.Nodup)
+    (hfree : ∀ p ∈ s.unassigned, alGet s.owner p = none) :
+    Own (assignUnassigned s) [] ∧ Keeps s (assignUnassigned s) ∧
+    (assignUnassigned s).c2p = s.c2p ∧
+    (∀ p ∈ s.unassigned, (consumersOf s p).isEmpty = false →
+      (∃ c ∈ s.subs, (potOf s c).contains p = true) → (alGet (assignUnassigned s).owner p).isSome) := by
+  unfold assignUnassigned
+  have := assignFold_own s.unassigned s [] h hnd hfree
+  simp only at this
+  obtain ⟨h1, h2, h3, _, h5⟩ := this
+  refine ⟨own_setSubsFlags _ _ [] h1 rfl rfl rfl, ⟨h2.1, h2.2⟩, h3, h5⟩
+
+theorem setAsideFixed_own (s : St) (h : Own s []) (hn : (keysOf s.c2p).Nodup)
+    (hk : ∀ c ∈ keysOf s.c2p, c ∈ keysOf s.cur) :
+    Own (setAsideFixed s).1 (setAsideFixed s).2 ∧ (setAsideFixed s).1.owner = s.owner := by
+  unfold setAsideFixed
+  have hn' : (s.c2p.map (·.1)).Nodup := hn
+  have hk' : ∀ c ∈ s.c2p.map (·.1), c ∈ keysOf s.cur := hk
+  exact setAsideFold_own (s.c2p.map (·.1)) s [] h hn' hk'
+
+theorem finishBalance_own (ini : Bool) (s2 s4 : St) (fx) (performed : Bool)
+    (h2 : Own s2 fx) (h4 : Own s4 fx) (hk : Keeps s2 s4)
+    (hok : (finishBalance ini s2.cur s2.owner fx s4 performed).failed = none) :
+    Own (finishBalance ini s2.cur s2.owner fx s4 performed) [] ∧
+    (∀ p, (alGet s2.owner p).isSome → (alGet (finishBalance ini s2.cur s2.owner fx s4 performed).owner p).isSome) := by
+  unfold finishBalance at hok ⊢
+  split
+  · rename_i hf
+    simp only [hf, if_true] at hok
+    rw [hok] at hf; cases hf
+  · simp only
+    have hrev : Own (if (!ini && performed && decide (balanceScore s4.cur ≥ balanceScore s2.cur)) = true
+        then { s4 with cur := s2.cur, owner := s2.owner } else s4) fx ∧
+        (∀ p, (alGet s2.owner p).isSome → (alGet (if (!ini && performed && decide (balanceScore s4.cur ≥ balanceScore s2.cur)) = true
+        then { s4 with cur := s2.cur, owner := s2.owner } else s4).owner p).isSome) := by
+      split
+      · exact ⟨own_setSubsFlags s2 _ fx h2 rfl rfl hk.1, fun p hp => hp⟩
+      · exact ⟨h4, hk.2⟩
+    generalize (if (!ini && performed && decide (balanceScore s4.cur ≥ balanceScore s2.cur)) = true
+        then { s4 with cur := s2.cur, owner := s2.owner } else s4) = s5 at hrev
+    have := addBack_own fx s5 hrev.1
+    exact ⟨this.1, fun p hp => by rw [this.2]; exact hrev.2 p hp⟩
+
+theorem balance_own (fuel : Nat) (s0 s' : St) (h : PreBalance s0) (hb : balance fuel s0 = some s')
+    (hok : s'.failed = none) :
+    Own s' [] ∧ s'.c2p = s0.c2p ∧
+    (∀ p ∈ s0.unassigned, (consumersOf s0 p).isEmpty = false →
+      (∃ c ∈ keysOf s0.cur, (potOf s0 c).contains p = true) → (alGet s'.owner p).isSome) ∧
+    (∀ p, (alGet s0.owner p).isSome → (alGet s'.owner p).isSome) := by
+  have hc2p := (balance_pot fuel s0 s' h.pot hb).2
+  unfold balance at hb
+  simp only at hb
+  split at hb
+  · injection hb with hb; rw [← hb] at hok; cases hok
+  · have hown0 := own_of_core s0 h.core
+    have ha := assignUnassigned_own _ hown0 h.un_nodup h.un_free
+    have hpa := assignUnassigned_pot _ (pot_setSubs s0 h.pot (s0.cur.map (·.1)))
+    generalize hsa : assignUnassigned { s0 with subs := s0.cur.map (·.1) } = sa at ha hpa hb
+    have hcur_keys : ∀ c ∈ keysOf s0.c2p, c ∈ keysOf sa.cur := by
+      intro c hc
+      have := ha.1.S c (by rw [ha.2.1.1]; exact h.c2p_cur c hc)
+      exact this
+    have hf := setAsideFixed_own sa ha.1 (by rw [ha.2.2.1]; exact h.c2p_nodup)
+      (by rw [ha.2.2.1]; exact hcur_keys)
+    have hpf := setAsideFixed_pot sa hpa.1
+    cases hsf : setAsideFixed sa with
+    | mk s2 fixedAsg =>
+      rw [hsf] at hb hf hpf
+      simp only at hb hf hpf
+      cases hrb : reassignBoth fuel s2 with
+      | none => rw [hrb] at hb; cases hb
+      | some r =>
+        rw [hrb] at hb
+        obtain ⟨s4, performed⟩ := r
+        simp only at hb
+        injection hb with hb
+        have h4 := reassignBoth_own fuel s2 (s4, performed) fixedAsg hf.1 hpf.1 hrb
+        simp only at h4
+        rw [← hb] at hok
+        have hfin := finishBalance_own _ s2 s4 fixedAsg performed hf.1 h4.1 h4.2 hok
+        rw [← hb]
+        refine ⟨hfin.1, by rw [hb]; exact hc2p, ?_, ?_⟩
+        · intro p hp hne hex
+          apply hfin.2 p
+          rw [hf.2]
+          apply ha.2.2.2 p hp hne
+          obtain ⟨c, hc, hpc⟩ := hex
+          exact ⟨c, hc, hpc⟩
+        · intro p hp
+          apply hfin.2 p
+          rw [hf.2]
+          exact ha.2.1.2 p hp
+
+end AkVerif.StickyAlg
+
+namespace AkVerif.StickyAlg
+open AkVerif.Assign
+
+/-! ### the work lists -/
+
+theorem insertBy_perm {α} (lt : α → α → Bool) (a : α) (l : List α) : (insertBy lt a l).Perm (a :: l) := by
+  induction l with
+  | nil => exact List.Perm.refl _
+  | cons x r ih =>
+    unfold insertBy
+    split
+    · exact List.Perm.refl _
+    · exact (List.Perm.cons x ih).trans (List.Perm.swap a x r)
+
+theorem sortBy_perm {α} (lt : α → α → Bool) (l : List α) : (sortBy lt l).Perm l := by
+  induction l with
+  | nil => exact List.Perm.refl _
+  | cons x r ih =>
+    show (insertBy lt x (sortBy lt r)).Perm (x :: r)
+    exact (insertBy_perm lt x _).trans (List.Perm.cons x ih)
+
+theorem foldl_removeFirst_sub {α} [BEq α] (ys : List α) : ∀ (l : List α) (x : α),
+    x ∈ ys.foldl removeFirst l → x ∈ l := by
+  induction ys with
+  | nil => intro l x h; exact h
+  | cons y r ih => intro l x h; exact mem_removeFirst _ _ _ (ih _ x h)
+
+theorem foldl_removeFirst_nodup {α} [BEq α] [LawfulBEq α] (ys : List α) : ∀ (l : List α), l.Nodup →
+    (ys.foldl removeFirst l).Nodup ∧ (∀ x ∈ ys, x ∉ ys.foldl removeFirst l) ∧
+    (∀ x ∈ l, x ∉ ys → x ∈ ys.foldl removeFirst l) := by
+  induction ys with
+  | nil =>
+    intro l h
+    refine ⟨h, ?_, fun x hx _ => hx⟩
+    intro x hx; cases hx
+  | cons y r ih =>
+    intro l h
+    obtain ⟨n1, n2, n3⟩ := removeFirst_nodup l y h
+    obtain ⟨i1, i2, i3⟩ := ih (removeFirst l y) n1
+    refine ⟨i1, ?_, ?_⟩
+    · intro x hx
+      rcases List.mem_cons.mp hx with rfl | hx
+      · intro hm; exact n2 (foldl_removeFirst_sub r _ _ hm)
+      · exact i2 x hx
+    · intro x hx hnot
+      simp only [List.mem_cons, not_or] at hnot
+      exact i3 x (n3 x hx hnot.1) hnot.2
+
+theorem mem_of_mem_dropLast' {α} {l : List α} {x : α} (h : x ∈ l.dropLast) : x ∈ l :=
+  (List.dropLast_sublist l).subset h
+
+theorem getLast_not_mem_dropLast {α} (l : List α) (p : α) (h : l.Nodup) (hl : l.getLast? = some p) :
+    p ∉ l.dropLast := by
+  induction l with
+  | nil => simp at hl
+  | cons a r ih =>
+    cases r with
+    | nil => simp
+    | cons b r' =>
+      rw [List.nodup_cons] at h
+      have hl' : (b :: r').getLast? = some p := by simpa [List.getLast?_cons_cons] using hl
+      have hp : p ∈ b :: r' := List.mem_of_getLast? hl'
+      simp only [List.dropLast_cons_cons, List.mem_cons, not_or]
+      refine ⟨?_, ih h.2 hl'⟩
+      intro he; subst he; exact h.1 hp
+
+/-- the round-robin listing never lists a partition twice -/
+theorem roundRobinList_nodup (fuel : Nat) : ∀ (asg : List (Member × List TP)) (acc : List TP),
+    acc.Nodup → (keysOf asg).Nodup → (∀ cp ∈ asg, cp.2.Nodup) →
+    (∀ x ∈ acc, ∀ cp ∈ asg, x ∉ cp.2) →
+    (∀ cp1 ∈ asg, ∀ cp2 ∈ asg, cp1.1 ≠ cp2.1 → ∀ x ∈ cp1.2, x ∉ cp2.2) →
+    (roundRobinList fuel asg acc).Nodup := by
+  induction fuel with
+  | zero => intro asg acc h _ _ _ _; exact h
+  | succ n ih =>
+    intro asg acc hacc hk hn hdis hpair
+    unfold roundRobinList
+    simp only
+    split
+    · exact hacc
+    · rename_i c ps hmax
+      have hin : (c, ps) ∈ asg := by
+        have := List.mem_of_getLast? hmax
+        have := (mem_sortBy _ _ _).mp this
+        simpa using this
+      have hhas : alHas asg c = true := (alHas_iff_mem_keys _ _).mpr (List.mem_map.mpr ⟨(c, ps), hin, rfl⟩)
+      split
+      · -- empty list: the consumer is dropped
+        apply ih
+        · exact hacc
+        · rw [keys_alDel]; exact List.Nodup.sublist List.filter_sublist hk
+        · intro cp hcp; exact hn cp ((mem_alDel _ _ _).mp hcp).1
+        · intro x hx cp hcp; exact hdis x hx cp ((mem_alDel _ _ _).mp hcp).1
+        · intro cp1 h1 cp2 h2; exact hpair cp1 ((mem_alDel _ _ _).mp h1).1 cp2 ((mem_alDel _ _ _).mp h2).1
+      · rename_i p hlast
+        have hp : p ∈ ps := List.mem_of_getLast? hlast
+        have hpd : p ∉ ps.dropLast := getLast_not_mem_dropLast ps p (hn _ hin) hlast
+        have memNew : ∀ cp, cp ∈ alSet asg c ps.dropLast → cp = (c, ps.dropLast) ∨ (cp ∈ asg ∧ cp.1 ≠ c) := by
+          intro cp hcp
+          rcases mem_alSet _ _ _ _ hcp with h1 | ⟨h1, h2⟩
+          · exact Or.inl h1
+          · exact Or.inr ⟨h1, by simpa using h2⟩
+        apply ih
+        · rw [List.nodup_append]
+          refine ⟨hacc, by simp, ?_⟩
+          intro a ha b hb; simp at hb
+          intro he; rw [hb] at he; rw [he] at ha
+          exact hdis p ha (c, ps) hin hp
+        · rw [keys_alSet_has _ _ _ hhas]; exact hk
+        · intro cp hcp
+          rcases memNew cp hcp with heq | ⟨h1, _⟩
+          · rw [heq]; exact List.Nodup.sublist (List.dropLast_sublist _) (hn _ hin)
+          · exact hn cp h1
+        · intro x hx cp hcp
+          rcases List.mem_append.mp hx with hx | hx
+          · rcases memNew cp hcp with heq | ⟨h1, _⟩
+            · rw [heq]; intro hm; exact hdis x hx (c, ps) hin (mem_of_mem_dropLast' hm)
+            · exact hdis x hx cp h1
+          · simp at hx; rw [hx]
+            rcases memNew cp hcp with heq | ⟨h1, h2⟩
+            · rw [heq]; exact hpd
+            · exact hpair (c, ps) hin cp h1 (fun he => h2 he.symm) p hp
+        · intro cp1 h1 cp2 h2 hne x hx
+          rcases memNew cp1 h1 with e1 | ⟨i1, _⟩ <;> rcases memNew cp2 h2 with e2 | ⟨i2, _⟩
+          · rw [e1, e2] at hne; exact absurd rfl hne
+          · rw [e1] at hx hne
+            exact hpair (c, ps) hin cp2 i2 hne x (mem_of_mem_dropLast' hx)
+          · rw [e2] at hne ⊢
+            intro hm; exact hpair cp1 i1 (c, ps) hin hne x hx (mem_of_mem_dropLast' hm)
+          · exact hpair cp1 i1 cp2 i2 hne x hx
+
+end AkVerif.StickyAlg
+
+namespace AkVerif.StickyAlg
+open AkVerif.Assign
+
+theorem allTps_nodup (parts : List (Topic × List Nat)) (hk : (parts.map (·.1)).Nodup)
+    (hps : ∀ tps ∈ parts, tps.2.Nodup) :
+    (parts.flatMap (fun tps => tps.2.map (fun p => ((tps.1, p) : TP)))).Nodup := by
+  induction parts with
+  | nil => simp
+  | cons a r ih =>
+    simp only [List.map_cons, List.nodup_cons] at hk
+    rw [List.flatMap_cons, List.nodup_append]
+    refine ⟨?_, ih hk.2 (fun tps h => hps tps (List.mem_cons_of_mem _ h)), ?_⟩
+    · have := hps a List.mem_cons_self
+      unfold List.Nodup at this ⊢
+      rw [List.pairwise_map]
+      exact this.imp (fun hne he => hne (by injection he))
+    · intro x hx y hy
+      obtain ⟨p, _, rfl⟩ := List.mem_map.mp hx
+      obtain ⟨tps, htps, hy'⟩ := List.mem_flatMap.mp hy
+      obtain ⟨q, _, rfl⟩ := List.mem_map.mp hy'
+      intro he; injection he with h1 _
+      exact hk.1 (List.mem_map.mpr ⟨tps, htps, h1.symm⟩)
+
+theorem partsBySize_nodup (s : St) (h : (keysOf s.p2c).Nodup) : (partsBySize s).Nodup := by
+  unfold partsBySize
+  have h' : (s.p2c.map (·.1)).Nodup := h
+  exact ((sortBy_perm _ s.p2c).map (·.1)).nodup_iff.mpr h'
+
+theorem partsBySize_mem (s : St) (p : TP) : p ∈ partsBySize s ↔ p ∈ keysOf s.p2c := by
+  unfold partsBySize
+  show _ ↔ p ∈ s.p2c.map (·.1)
+  exact ((sortBy_perm _ s.p2c).map (·.1)).mem_iff
+
+theorem populateSorted_nodup (s : St) (hp : (keysOf s.p2c).Nodup) (hc : OwnCore s.cur s.owner) :
+    (populateSortedPartitions s).sortedParts.Nodup ∧
+    (∀ p ∈ keysOf s.p2c, p ∈ (populateSortedPartitions s).sortedParts) := by
+  unfold populateSortedPartitions
+  have hbs := partsBySize_nodup s hp
+  split
+  · simp only
+    generalize hrr : roundRobinList _ _ _ = rr
+    have hrrnd : rr.Nodup := by
+      rw [← hrr]
+      apply roundRobinList_nodup
+      · exact List.nodup_nil
+      · have : keysOf (s.cur.map (fun cp => (cp.1, cp.2.filter (fun p => alHas s.p2c p)))) = keysOf s.cur := by
+          unfold keysOf; simp [List.map_map, Function.comp_def]
+        rw [this]; exact hc.K
+      · intro cp hcp
+        obtain ⟨cp0, h0, rfl⟩ := List.mem_map.mp hcp
+        exact List.Nodup.sublist List.filter_sublist (hc.N cp0 h0)
+      · intro x hx; cases hx
+      · intro cp1 h1 cp2 h2 hne x hx hx2
+        obtain ⟨a, ha, rfl⟩ := List.mem_map.mp h1
+        obtain ⟨b, hb, rfl⟩ := List.mem_map.mp h2
+        have o1 := hc.HO a ha x (List.mem_filter.mp hx).1
+        have o2 := hc.HO b hb x (List.mem_filter.mp hx2).1
+        rw [o1] at o2; injection o2 with o2
+        exact hne o2
+    refine ⟨?_, ?_⟩
+    · rw [List.nodup_append]
+      refine ⟨hrrnd, List.Nodup.sublist List.filter_sublist hbs, ?_⟩
+      intro a ha b hb
+      have := (List.mem_filter.mp hb).2
+      intro he; subst he
+      simp [List.contains_iff_mem, ha] at this
+    · intro p hp'
+      by_cases hin : p ∈ rr
+      · exact List.mem_append_left _ hin
+      · apply List.mem_append_right
+        apply List.mem_filter.mpr
+        refine ⟨(partsBySize_mem s p).mpr hp', ?_⟩
+        simp [List.contains_iff_mem, hin]
+  · exact ⟨hbs, fun p hp' => (partsBySize_mem s p).mpr hp'⟩
+
+/-- the state handed to `balance` by `assign` -/
+theorem initState_preBalance (parts : List (Topic × List Nat)) (members : List MemberIn) (oracle : List TP)
+    (hparts : (parts.map (·.1)).Nodup) (hps : ∀ tps ∈ parts, tps.2.Nodup)
+    (hmem : (members.map (·.id)).Nodup) :
+    PreBalance (populatePartitionsToReassign (populateSortedPartitions (initState parts members oracle))) ∧
+    (∀ p ∈ keysOf (initState parts members oracle).p2c,
+      p ∈ (populatePartitionsToReassign (populateSortedPartitions (initState parts members oracle))).unassigned ∨
+      (alGet (populatePartitionsToReassign (populateSortedPartitions (initState parts members oracle))).owner p).isSome) := by
+  have hf := populateSorted_fields (initState parts members oracle)
+  obtain ⟨f1, f2, f3, f4, f5, f6, f7⟩ := hf
+  have hcore0 := initState_ownCore parts members oracle
+  have hp2c : (keysOf (initState parts members oracle).p2c).Nodup := by
+    have : keysOf (initState parts members oracle).p2c
+        = parts.flatMap (fun tps => tps.2.map (fun p => ((tps.1, p) : TP))) := by
+      unfold initState keysOf; simp [List.map_map, Function.comp_def]; rfl
+    rw [this]; exact allTps_nodup parts hparts hps
+  have hsorted := populateSorted_nodup (initState parts members oracle) hp2c hcore0.1
+  generalize hs1 : populateSortedPartitions (initState parts members oracle) = s1 at *
+  have hcore1 : OwnCore s1.cur s1.owner := by rw [f1, f2]; exact hcore0.1
+  have hcore2 := populate_ownCore s1 hcore1
+  -- the kept partitions are exactly the owned ones
+  have kept_owned : ∀ p c, alGet (populatePartitionsToReassign s1).owner p = some c →
+      p ∈ s1.cur.flatMap (fun cp => cp.2.filter (fun p => keepFor s1 cp.1 p)) := by
+    intro p c hp
+    obtain ⟨ps, hps', hpp⟩ := hcore2.OH p c hp
+    unfold populatePartitionsToReassign at hps'
+    simp only at hps'
+    obtain ⟨cp0, h0, heq⟩ := List.mem_map.mp hps'
+    injection heq with e1 e2
+    subst e1; subst e2
+    exact List.mem_flatMap.mpr ⟨cp0, h0, hpp⟩
+  have owned_kept : ∀ p, p ∈ s1.cur.flatMap (fun cp => cp.2.filter (fun p => keepFor s1 cp.1 p)) →
+      (alGet (populatePartitionsToReassign s1).owner p).isSome := by
+    intro p hp
+    obtain ⟨cp0, h0, hpp⟩ := List.mem_flatMap.mp hp
+    have : (cp0.1, cp0.2.filter (fun p => keepFor s1 cp0.1 p)) ∈ (populatePartitionsToReassign s1).cur := by
+      unfold populatePartitionsToReassign; simp only
+      exact List.mem_map.mpr ⟨cp0, h0, rfl⟩
+    have := hcore2.HO _ this p hpp
+    rw [this]; rfl
+  have hun : (populatePartitionsToReassign s1).unassigned
+      = (s1.cur.flatMap (fun cp => cp.2.filter (fun p => keepFor s1 cp.1 p))).foldl removeFirst s1.sortedParts := rfl
+  obtain ⟨u1, u2, u3⟩ := foldl_removeFirst_nodup
+    (s1.cur.flatMap (fun cp => cp.2.filter (fun p => keepFor s1 cp.1 p))) s1.sortedParts hsorted.1
+  have hkeys2 : keysOf (populatePartitionsToReassign s1).cur = keysOf s1.cur := by
+    unfold populatePartitionsToReassign keysOf; simp [List.map_map, Function.comp_def]
+  refine ⟨⟨hcore2, by rw [hun]; exact u1, ?_, ?_, ?_, ?_⟩, ?_⟩
+  · intro p hp
+    cases hg : alGet (populatePartitionsToReassign s1).owner p with
+    | none => rfl
+    | some c =>
+      exfalso
+      rw [hun] at hp
+      exact u2 p (kept_owned p c hg) hp
+  · show (keysOf s1.c2p).Nodup
+    rw [f3, initState_c2p]
+    unfold keysOf; simp only [List.map_map, Function.comp_def]; exact hmem
+  · intro c hc
+    rw [hkeys2, f1]
+    have hc' : c ∈ keysOf s1.c2p := hc
+    rw [f3, initState_c2p] at hc'
+    unfold keysOf at hc'
+    simp only [List.map_map, Function.comp_def, List.mem_map] at hc'
+    obtain ⟨m, hm, rfl⟩ := hc'
+    exact hcore0.2 m hm
+  · rw [← hs1]; exact initState_pot parts members oracle hparts
+  · intro p hp
+    by_cases hk : p ∈ s1.cur.flatMap (fun cp => cp.2.filter (fun p => keepFor s1 cp.1 p))
+    · exact Or.inr (owned_kept p hk)
+    · left; rw [hun]; exact u3 p (hsorted.2 p hp) hk
+
+end AkVerif.StickyAlg
+
+namespace AkVerif.StickyAlg
+open AkVerif.Assign
+
+theorem insertSorted_self (t : Topic) (ps : List Nat) (acc : List (Topic × List Nat)) :
+    (t, ps) ∈ insertSorted t ps acc := by
+  induction acc with
+  | nil => simp [insertSorted]
+  | cons a r ih =>
+    obtain ⟨t', ps'⟩ := a
+    unfold insertSorted
+    split
+    · exact List.mem_cons_self
+    · split
+      · exact List.mem_cons_self
+      · exact List.mem_cons_of_mem _ ih
+
+theorem insertSorted_other (t : Topic) (ps : List Nat) (acc : List (Topic × List Nat)) (x : Topic × List Nat)
+    (hx : x ∈ acc) (hne : x.1 ≠ t) : x ∈ insertSorted t ps acc := by
+  induction acc with
+  | nil => cases hx
+  | cons a r ih =>
+    obtain ⟨t', ps'⟩ := a
+    unfold insertSorted
+    split
+    · exact List.mem_cons_of_mem _ hx
+    · split
+      · rename_i heq
+        rcases List.mem_cons.mp hx with rfl | hx'
+        · simp only at hne; exact absurd heq.symm hne
+        · exact List.mem_cons_of_mem _ hx'
+      · rcases List.mem_cons.mp hx with rfl | hx'
+        · exact List.mem_cons_self
+        · exact List.mem_cons_of_mem _ (ih hx')
+
+theorem insertSorted_keys (t : Topic) (ps : List Nat) (acc : List (Topic × List Nat))
+    (h : (keysOf acc).Pairwise (· < ·)) :
+    (keysOf (insertSorted t ps acc)).Pairwise (· < ·) ∧
+    (∀ k ∈ keysOf (insertSorted t ps acc), k = t ∨ k ∈ keysOf acc) := by
+  induction acc with
+  | nil => simp [insertSorted, keysOf]
+  | cons a r ih =>
+    obtain ⟨t', ps'⟩ := a
+    have hk : keysOf ((t', ps') :: r) = t' :: keysOf r := rfl
+    rw [hk, List.pairwise_cons] at h
+    unfold insertSorted
+    split
+    · rename_i hlt
+      refine ⟨?_, ?_⟩
+      · show (t :: t' :: keysOf r).Pairwise (· < ·)
+        rw [List.pairwise_cons]
+        refine ⟨?_, List.pairwise_cons.mpr h⟩
+        intro k hk'
+        rcases List.mem_cons.mp hk' with rfl | hk'
+        · exact hlt
+        · exact Nat.lt_trans hlt (h.1 k hk')
+      · intro k hk'
+        have : keysOf ((t, ps) :: (t', ps') :: r) = t :: t' :: keysOf r := rfl
+        rw [this] at hk'
+        rcases List.mem_cons.mp hk' with rfl | hk'
+        · exact Or.inl rfl
+        · exact Or.inr (by rw [hk]; exact hk')
+    · split
+      · rename_i heq
+        subst heq
+        refine ⟨?_, ?_⟩
+        · show (t :: keysOf r).Pairwise (· < ·)
+          exact List.pairwise_cons.mpr h
+        · intro k hk'
+          have : keysOf ((t, ps) :: r) = t :: keysOf r := rfl
+          rw [this] at hk'
+          rcases List.mem_cons.mp hk' with rfl | hk'
+          · exact Or.inl rfl
+          · exact Or.inr (by rw [hk]; exact List.mem_cons_of_mem _ hk')
+      · rename_i hnlt hne
+        obtain ⟨i1, i2⟩ := ih h.2
+        refine ⟨?_, ?_⟩
+        · show (t' :: keysOf (insertSorted t ps r)).Pairwise (· < ·)
+          rw [List.pairwise_cons]
+          refine ⟨?_, i1⟩
+          intro k hk'
+          rcases i2 k hk' with hkt | hk'
+          · rw [hkt]
+            have h1 : ¬ t < t' := hnlt
+            have h2 : ¬ t = t' := hne
+            show t' < t
+            exact Nat.lt_of_le_of_ne (Nat.le_of_not_lt h1) (fun e => h2 e.symm)
+          · exact h.1 k hk'
+        · intro k hk'
+          have : keysOf ((t', ps') :: insertSorted t ps r) = t' :: keysOf (insertSorted t ps r) := rfl
+          rw [this] at hk'
+          rcases List.mem_cons.mp hk' with rfl | hk'
+          · exact Or.inr (by rw [hk]; exact List.mem_cons_self)
+          · rcases i2 k hk' with h1 | h1
+            · exact Or.inl h1
+            · exact Or.inr (by rw [hk]; exact List.mem_cons_of_mem _ h1)
+
+theorem pairwise_lt_nodup (l : List Nat) (h : l.Pairwise (· < ·)) : l.Nodup :=
+  h.imp (fun hlt => Nat.ne_of_lt hlt)
+
+/-- every held partition shows up in the member's final items -/
+theorem finalFor_complete (l : List TP) : ∀ (acc : List (Topic × List Nat)) (q : TP),
+    (keysOf acc).Pairwise (· < ·) →
+    ((∃ ps, (q.1, ps) ∈ acc ∧ q.2 ∈ ps) ∨ q ∈ l) →
+    ∃ ps, (q.1, ps) ∈ l.foldl (fun acc p =>
+        match acc.find? (·.1 == p.1) with
+        | some (_, ps) => insertSorted p.1 (isort (ps ++ [p.2])) acc
+        | none => insertSorted p.1 [p.2] acc) acc ∧ q.2 ∈ ps := by
+  induction l with
+  | nil =>
+    intro acc q _ h
+    rcases h with h | h
+    · exact h
+    · cases h
+  | cons p rest ih =>
+    intro acc q hsorted h
+    simp only [List.foldl_cons]
+    apply ih
+    · split
+      · exact (insertSorted_keys _ _ _ hsorted).1
+      · exact (insertSorted_keys _ _ _ hsorted).1
+    rcases h with ⟨ps, hps, hq⟩ | h
+    · left
+      by_cases ht : q.1 = p.1
+      · cases hf : acc.find? (·.1 == p.1) with
+        | none =>
+          exfalso
+          have := List.find?_eq_none.mp hf (q.1, ps) hps
+          simp [ht] at this
+        | some e =>
+          obtain ⟨t0, ps0⟩ := e
+          simp only
+          have hkey := List.find?_some hf
+          have hmem := List.mem_of_find?_eq_some hf
+          have ht0 : t0 = p.1 := by simpa using hkey
+          have hsame : ps0 = ps := by
+            subst ht0
+            rw [← ht] at hmem
+            exact nodup_unique_val acc (pairwise_lt_nodup _ hsorted) q.1 ps0 ps hmem hps
+          subst hsame
+          refine ⟨isort (ps0 ++ [p.2]), by rw [ht]; exact insertSorted_self _ _ _, ?_⟩
+          rw [mem_isort_iff]; exact List.mem_append_left _ hq
+      · refine ⟨ps, ?_, hq⟩
+        split
+        · exact insertSorted_other _ _ _ _ hps ht
+        · exact insertSorted_other _ _ _ _ hps ht
+    · rcases List.mem_cons.mp h with rfl | h
+      · left
+        split
+        · rename_i t0 ps0 _
+          exact ⟨isort (ps0 ++ [q.2]), insertSorted_self _ _ _, by rw [mem_isort_iff]; simp⟩
+        · exact ⟨[q.2], insertSorted_self _ _ _, by simp⟩
+      · exact Or.inr h
+
+end AkVerif.StickyAlg
